@@ -63,6 +63,8 @@ func cases() []tcase {
 		add("Src.LookAhead "+cs(s), func() string { return cs(sample.LookAhead(s)) })
 		add("Src.Clean2 "+cs(s), func() string { return cs(sample.Clean2(s)) })
 		add("Src.Caller "+cs(s), func() string { return cs(sample.Caller(s)) })
+		add("Src.QuoteLoop "+cs(s), func() string { return cs(sample.QuoteLoop(s)) })
+		add("Src.QuoteLoop "+cs("'"+s+"''"), func() string { return cs(sample.QuoteLoop("'" + s + "''")) })
 		for _, u := range []bool{false, true} {
 			u := u
 			add("Src.Camelize "+cs(s)+" "+cbool(u), func() string { return cs(sample.Camelize(s, u)) })
@@ -74,6 +76,7 @@ func cases() []tcase {
 			add("Src.Index "+cs(s)+" "+cs(p), func() string { return ci(sample.Index(s, p)) })
 			add("Src.Less "+cs(s)+" "+cs(p), func() string { return cbool(sample.Less(s, p)) })
 			add("Src.Swap "+cs(s)+" "+cs(p), func() string { return cs(sample.Swap(s, p)) })
+			add("Src.PathJoin "+cs(s)+" "+cs(p), func() string { return cs(sample.PathJoin(s, p)) })
 			if p != "" {
 				add("Src.Resolve "+cs(p)+" "+cs(s), func() string { return cs(sample.Resolve(p, s)) })
 			}
@@ -116,7 +119,7 @@ func cases() []tcase {
 
 var sampleFuncs = []string{"ReplaceAB", "ReplaceAA", "ReplaceWith", "Affixes", "Index", "IndexDot", "Slice", "SliceFrom", "SliceTo", "At",
 	"Less", "Arith", "DivMod", "ByteOps", "Conv", "ShortCircuit", "ShortCircuitPanics", "Shadow", "Swap", "Classify", "IsDigitString",
-	"Camelize", "CountAndSkip", "LookAhead", "Resolve", "Clean2", "Caller"}
+	"Camelize", "CountAndSkip", "LookAhead", "Resolve", "Clean2", "Caller", "QuoteLoop", "PathJoin"}
 
 // TestDifferential: the translated definitions, evaluated by Coq, agree with the compiled Go code on every case
 // (including which inputs panic).  Needs coqc and the compiled coq/Lib/GoRt.vo, coq/Lib/GoPath.vo.
@@ -164,28 +167,30 @@ func TestDifferential(t *testing.T) {
 func TestRejections(t *testing.T) {
 	dir := t.TempDir()
 	bad := map[string]string{
-		"goroutine":   "func F(s string) string { go func() {}(); return s }",
-		"map":         "func F(s string) string { m := map[string]string{}; return m[s] }",
-		"rangeloop":   "func F(s string) int { n := 0; for range s { n++ }; return n }",
-		"loopassigni": "func F(s string) int { n := 0; for i := 0; i < len(s); i++ { i++; n++ }; return n }",
-		"whileloop":   "func F(s string) int { n := 0; for n < len(s) { n++ }; return n }",
-		"bytesslice":  "func F(b []byte) []byte { return b[1:] }",
-		"store":       "func F(b []byte) []byte { b[0] = 1; return b }",
-		"emptypat":    "import \"strings\"\nfunc F(s string) string { return strings.ReplaceAll(s, \"\", \"x\") }",
-		"varpat":      "import \"strings\"\nfunc F(s, p string) string { return strings.ReplaceAll(s, p, \"x\") }",
-		"count":       "import \"strings\"\nfunc F(s string) string { return strings.Replace(s, \"a\", \"x\", 1) }",
-		"global":      "var g = \"x\"\nfunc F(s string) string { return s + g }",
-		"other":       "func G(s string) string { return s }\nfunc F(s string) string { return G(s) }",
-		"twores":      "func F(s string) (string, bool) { return s, true }",
-		"shift":       "func F(x int) int { return x << 2 }",
-		"divvar":      "func F(x, y int) int { return x / y }",
-		"break":       "func F(s string) int { n := 0; for i := 0; i < len(s); i++ { if s[i] == 0 { break }; n++ }; return n }",
-		"nested":      "func F(s string) int { n := 0; for i := 0; i < len(s); i++ { for j := 0; j < len(s); j++ { n++ } }; return n }",
+		"goroutine":    "func F(s string) string { go func() {}(); return s }",
+		"map":          "func F(s string) string { m := map[string]string{}; return m[s] }",
+		"rangeloop":    "func F(s string) int { n := 0; for range s { n++ }; return n }",
+		"loopassigni":  "func F(s string) int { n := 0; for i := 0; i < len(s); i++ { i++; n++ }; return n }",
+		"whileloop":    "func F(s string) int { n := 0; for n < len(s) { n++ }; return n }",
+		"bytesslice":   "func F(b []byte) []byte { return b[1:] }",
+		"store":        "func F(b []byte) []byte { b[0] = 1; return b }",
+		"emptypat":     "import \"strings\"\nfunc F(s string) string { return strings.ReplaceAll(s, \"\", \"x\") }",
+		"varpat":       "import \"strings\"\nfunc F(s, p string) string { return strings.ReplaceAll(s, p, \"x\") }",
+		"count":        "import \"strings\"\nfunc F(s string) string { return strings.Replace(s, \"a\", \"x\", 1) }",
+		"global":       "var g = \"x\"\nfunc F(s string) string { return s + g }",
+		"other":        "func G(s string) string { return s }\nfunc F(s string) string { return G(s) }",
+		"twores":       "func F(s string) (string, bool) { return s, true }",
+		"shift":        "func F(x int) int { return x << 2 }",
+		"divvar":       "func F(x, y int) int { return x / y }",
+		"break":        "func F(s string) int { n := 0; for i := 0; i < len(s); i++ { if s[i] == 0 { break }; n++ }; return n }",
+		"nested":       "func F(s string) int { n := 0; for i := 0; i < len(s); i++ { for j := 0; j < len(s); j++ { n++ } }; return n }",
 		"stringofbyte": "func F(b byte) string { return string(b) }",
-		"shadowlen":   "func len(s string) int { return 0 }\nfunc F(s string) int { return len(s) }",
-		"float":       "func F(x float64) float64 { return x }",
-		"recursion":   "func F(s string) string { if s == \"\" { return s }; return F(s[1:]) }",
-		"runevar":     "func F(s string) bool { c := 'a'; return s[0] == byte(c) }",
+		"shadowlen":    "func len(s string) int { return 0 }\nfunc F(s string) int { return len(s) }",
+		"float":        "func F(x float64) float64 { return x }",
+		"recursion":    "func F(s string) string { if s == \"\" { return s }; return F(s[1:]) }",
+		"buildercopy":  "import \"strings\"\nfunc F(s string) string { var a strings.Builder; b := a; b.WriteString(s); return b.String() }",
+		"builderaddr":  "import (\"strings\"; \"fmt\")\nfunc F(s string) string { var a strings.Builder; fmt.Fprint(&a, s); return a.String() }",
+		"runevar":      "func F(s string) bool { c := 'a'; return s[0] == byte(c) }",
 	}
 	for name, body := range bad {
 		d := filepath.Join(dir, name)
